@@ -584,8 +584,13 @@ class Rinex3Parser(ChainParser):
             )  # TODO: Handle flagged epochs
 
         # Decimate RINEX observation defined by sampling rate [seconds]
+        #
+        # NOTE: The observation epoch is compared with the nearest point of the sampling grid. A check like
+        #       'obs_sec % sampling_rate != 0' fails for sampling rates, which are not exactly representable as
+        #       floating point number (e.g. 0.1 s). RINEX observation epochs have a resolution of 1e-7 s.
         if self.sampling_rate:
-            if cache["obs_sec"] % self.sampling_rate != 0:
+            grid_sec = round(cache["obs_sec"] / self.sampling_rate) * self.sampling_rate
+            if abs(cache["obs_sec"] - grid_sec) >= 5e-8:
                 cache["obs_sec"] = None  # Ignore epoch
 
     def _parse_observation(self, line: Dict[str, str], cache: Dict[str, Any]) -> None:
